@@ -72,13 +72,16 @@ def gen_history(r, tier, forced=None):
         K = r.randint(1, 6)
     init = "uniform"
     steps = []
-    mode = r.choice(["mixed", "mixed", "clean", "nofreeze", "skippy"])
+    mode = r.choice(["mixed", "mixed", "clean", "nofreeze", "skippy", "epochs", "net-nothing"])
     for k in range(K):
-        cmd = 0
+        cmd = []
         if mode == "skippy":
-            cmd = r.randint(0, 6)
-        elif mode == "mixed" and r.random() < 0.25:
-            cmd = r.randint(1, 6)
+            cmd = [r.randint(1, 6) for _ in range(r.randint(0, 3))]
+        elif mode == "net-nothing" and r.random() < 0.6:
+            # command histories that net to nothing before the step: it must behave as if none had been issued
+            cmd = list(r.choice([[1, 2], [3, 4], [5, 6], [5, 2, 4], [1, 3, 6], [1, 2, 1, 2], [3, 1, 2, 4], [5, 6, 5, 6], [1, 6], [3, 6], [5, 4, 2]]))
+        elif mode in ("mixed", "epochs") and r.random() < 0.25:
+            cmd = [r.randint(1, 6)]
         fr = 1
         if mode == "nofreeze":
             fr = 1 if r.random() < 0.3 else 0
@@ -86,25 +89,27 @@ def gen_history(r, tier, forced=None):
             fr = 0
         va = 0 if (mode != "clean" and r.random() < 0.12) else 1
         style = r.choice(LIK_STYLES)
-        steps.append((cmd, fr, va, gen_lik(r, style, n), style))
+        rst = 1 if (mode == "epochs" and r.random() < 0.2) else 0
+        shift = r.choice([1.0, 1.0, 2.0, -0.5, 0.25 * (k + 1)])          # time-varying prediction
+        steps.append((cmd, fr, va, gen_lik(r, style, n), style, rst, shift))
     if forced == "n3-onehot":
         n, K = 3, r.randint(1, 4)
-        steps = [(0, 1, 1, [1.0, 0.0, 0.0][::r.choice([1, -1])], "onehot")] + \
-                [(0, r.choice([0, 1]), 1, [1.0, 1.0, 1.0], "ones") for _ in range(K - 1)]
+        steps = [([], 1, 1, [1.0, 0.0, 0.0][::r.choice([1, -1])], "onehot", 0, 1.0)] + \
+                [([], r.choice([0, 1]), 1, [1.0, 1.0, 1.0], "ones", 0, 1.0) for _ in range(K - 1)]
     if forced == "n3-init-onehot":
         n, K, init = 3, r.randint(1, 3), "onehot"
-        steps = [(0, 0, 1, [1.0] * 3, "ones") for _ in range(K)]
+        steps = [([], 0, 1, [1.0] * 3, "ones", 0, 1.0) for _ in range(K)]
     if forced == "init-peaked":
         n, K, init = r.randint(4, 20), r.randint(1, 3), "peaked"
-        steps = [(0, 0, 1, [1.0] * n, "ones") for _ in range(K)]
+        steps = [([], 0, 1, [1.0] * n, "ones", 0, 1.0) for _ in range(K)]
     if forced == "n6-twohot":
         n, K = 6, 2
-        steps = [(0, 1, 1, [1.0, 1.0, 0.0, 0.0, 0.0, 0.0], "twohot"), (0, 0, 1, [1.0] * 6, "ones")]
+        steps = [([], 1, 1, [1.0, 1.0, 0.0, 0.0, 0.0, 0.0], "twohot", 0, 1.0), ([], 0, 1, [1.0] * 6, "ones", 0, 1.0)]
     if forced in ("circ-resample", "circ-resample-prior"):
         n = r.randint(4, 30)
         circ = r.randint(1, 2)
         K = r.randint(1, 5)
-        steps = [(r.choice([0, 0, 1, 3]), 1, 1, gen_lik(r, "peaked", n), "peaked") for _ in range(K)]
+        steps = [(r.choice([[], [], [1], [3]]), 1, 1, gen_lik(r, "peaked", n), "peaked", 0, 1.0) for _ in range(K)]
     if init == "uniform":
         w0 = [-math.log(n)] * n
     elif init == "peaked":
@@ -118,14 +123,35 @@ def gen_history(r, tier, forced=None):
         l = lse(xs)
         w0 = [x - l for x in xs]
         init = "random-normalised"
+    if forced == "unnorm-init":
+        # un-normalised initial weights and a failing acquisition at step 0 (outside the hypothesis InitOK, inside the
+        # clause "when it is not, the corrected set equals the predicted set")
+        n = r.randint(1, 12)
+        K = r.randint(1, 4)
+        w0 = r.choice([[0.0] * n, [r.uniform(-3, 1) for _ in range(n)], [-0.5] * n, [-2.0 - math.log(n)] * n])
+        init = "unnormalised"
+        steps = [([], 0, 1, gen_lik(r, "random", n), "random", 0, 1.0)] + \
+                [([], r.choice([0, 1]), 1, gen_lik(r, "random", n), "random", 0, 1.0) for _ in range(K - 1)]
     x0 = [1000.0 * (i + 1) for i in range(n)]
+    inits = [(w0, x0)]
+    if any(st[5] for st in steps):
+        # time-varying initialisation model: every epoch gets its own weights and positions
+        for e in range(1, r.randint(2, 3)):
+            kind = r.choice(["uniform", "random", "unnormalised"])
+            if kind == "uniform":
+                we = [-math.log(n)] * n
+            else:
+                xs = [r.uniform(-5, 0) for _ in range(n)]
+                l = lse(xs) if kind == "random" else 0.0
+                we = [x - l for x in xs]
+            inits.append((we, [100000.0 * e + 1000.0 * (i + 1) for i in range(n)]))
     seed = r.randrange(1, 2 ** 32)
     prior, ratio = 0, 0.0
     if (forced is None and r.random() < 0.25) or forced == "circ-resample-prior":
         prior = 1
         ratio = r.choice([0.0, 0.1, 0.25, 0.3, 0.5, 0.75, 0.9, r.uniform(0, 0.95)])
     meta = {"n": n, "lin": lin, "circ": circ, "K": len(steps), "mode": forced or mode, "init": init, "seed": seed, "prior": prior}
-    return (seed, n, lin, circ, w0, x0, steps, prior, ratio), meta
+    return (seed, n, lin, circ, inits, None, steps, prior, ratio), meta
 
 
 def draw_count(case):
@@ -135,27 +161,33 @@ def draw_count(case):
 
 
 def make_lines(case, us):
-    seed, n, lin, circ, w0, x0, steps, prior, ratio = case
-    body = "%d %d %d %d %d %d %s %s %s %s" % (n, lin, circ, len(steps), len(us), prior, hexd(ratio), " ".join(us),
-                                      " ".join(hexd(x) for x in w0), " ".join(hexd(x) for x in x0))
-    for cmd, fr, va, lik, _ in steps:
-        body += " %d %d %d %s" % (cmd, fr, va, " ".join(hexd(x) for x in lik))
+    seed, n, lin, circ, inits, _, steps, prior, ratio = case
+    body = "%d %d %d %d %d %d %s %s %d %s" % (n, lin, circ, len(steps), len(us), prior, hexd(ratio), " ".join(us), len(inits),
+                                         " ".join(" ".join(hexd(x) for x in w) + " " + " ".join(hexd(x) for x in x) for w, x in inits))
+    for cmd, fr, va, lik, _, rst, shift in steps:
+        body += " %d %s%d %d %d %s %s" % (len(cmd), "".join("%d " % c for c in cmd), fr, va, rst, hexd(shift), " ".join(hexd(x) for x in lik))
     return "sis %d %s" % (seed, body), "sis " + body
 
 
 def parse_line(line):
-    """corpus line (a harness line) -> case tuple"""
+    """corpus / replay line (a harness line) -> case tuple"""
     t = line.split()
     seed, n, lin, circ, K, D, prior = [int(x) for x in t[1:8]]
     ratio = unhex(t[8])
     p = 9 + D
-    w0 = [unhex(x) for x in t[p:p + n]]; p += n
-    x0 = [unhex(x) for x in t[p:p + n]]; p += n
+    E = int(t[p]); p += 1
+    inits = []
+    for _ in range(E):
+        w0 = [unhex(x) for x in t[p:p + n]]; p += n
+        x0 = [unhex(x) for x in t[p:p + n]]; p += n
+        inits.append((w0, x0))
     steps = []
     for _ in range(K):
-        cmd, fr, va = int(t[p]), int(t[p + 1]), int(t[p + 2]); p += 3
-        steps.append((cmd, fr, va, [unhex(x) for x in t[p:p + n]], "corpus")); p += n
-    return (seed, n, lin, circ, w0, x0, steps, prior, ratio), {"n": n, "lin": lin, "circ": circ, "K": K, "mode": "corpus", "init": "corpus", "seed": seed, "prior": prior}
+        nc = int(t[p]); p += 1
+        cmd = [int(x) for x in t[p:p + nc]]; p += nc
+        fr, va, rst = int(t[p]), int(t[p + 1]), int(t[p + 2]); shift = unhex(t[p + 3]); p += 4
+        steps.append((cmd, fr, va, [unhex(x) for x in t[p:p + n]], "corpus", rst, shift)); p += n
+    return (seed, n, lin, circ, inits, None, steps, prior, ratio), {"n": n, "lin": lin, "circ": circ, "K": K, "mode": "corpus", "init": "corpus", "seed": seed, "prior": prior}
 
 
 # --------------------------------------------------------------------------- parsing
@@ -171,6 +203,12 @@ def parse_blocks(tokens, with_x):
         b["parents"] = [int(x) for x in tokens[p:p + npar]]; p += npar
         b["w"] = [unhex(x) for x in tokens[p:p + b["wrows"]]]; p += b["wrows"]
         b["x"] = [unhex(x) for x in tokens[p:p + b["ccols"]]]; p += b["ccols"]
+        assert tokens[p] == "L"
+        nl = int(tokens[p + 1]); p += 2
+        b["lw"] = [unhex(x) for x in tokens[p:p + nl]]; p += nl
+        if not with_x:
+            assert tokens[p] == "T"
+            b["stepno"] = int(tokens[p + 1]); p += 2
         if with_x:
             assert tokens[p] == "X"
             (b["srows"], b["mrows"], b["mcols"], b["crows"], b["covcols"], b["dim"], b["quat"], b["rows_ok"], b["u1ok"]) = [int(x) for x in tokens[p + 1:p + 10]]
@@ -179,6 +217,7 @@ def parse_blocks(tokens, with_x):
             for key in ("cw", "cs", "pw", "ps"):
                 k = int(tokens[p]); p += 1
                 b[key] = [unhex(x) for x in tokens[p:p + k]]; p += k
+            b["stepno"], b["log_calls"] = int(tokens[p]), int(tokens[p + 1]); p += 2
         out.append(b)
     return out, p
 
@@ -199,7 +238,7 @@ def bits_equal(a, b):
 
 def check_history(case, meta, h, d, stats, hist):
     probs = []
-    seed, n, lin, circ, w0, x0, steps, prior, ratio = case
+    seed, n, lin, circ, inits, _, steps, prior, ratio = case
     kprior = int(math.floor(n * ratio)) if prior else 0
     K = len(steps)
     if not h.startswith("ok"):
@@ -223,22 +262,33 @@ def check_history(case, meta, h, d, stats, hist):
         probs.append(("corr", "model-undefined", "model not defined: %s" % d[:60]))
     thr = n / 3.0
     wl = hexd(-math.log(n))
+    epoch, local = 0, 0                       # epoch = number of resets seen so far; local = step number inside the epoch
+    w0, x0 = inits[0]
     prev_w, prev_x = list(w0), list(x0)
+    prev_norm = abs(lse(w0)) <= 1e-10         # are the weights handed to this step normalised?
     skipP = skipC = False
     live = mblocks is not None
-    for k, (cmd, fr, va, lik, style) in enumerate(steps):
+    for k, (cmds, fr, va, lik, style, rst, shift) in enumerate(steps):
         b = blocks[k]
-        if cmd in (1, 2):
-            skipP = (cmd == 1)
-        elif cmd in (3, 4):
-            skipC = (cmd == 3)
-        elif cmd in (5, 6):
-            skipP = skipC = (cmd == 5)
-        where = "step %d of %d (N=%d, lin=%d, circ=%d)" % (k, K, n, lin, circ)
+        for cmd in cmds:
+            if cmd in (1, 2):
+                skipP = (cmd == 1)
+            elif cmd in (3, 4):
+                skipC = (cmd == 3)
+            elif cmd in (5, 6):
+                skipP = skipC = (cmd == 5)
+        if len(cmds) > 1:
+            stats["steps_after_several_commands"] = stats.get("steps_after_several_commands", 0) + 1
+        where = "step %d of %d (epoch %d, step %d in it; N=%d, lin=%d, circ=%d)" % (k, K, epoch, local, n, lin, circ)
         trig = bool(b["trig"])
-        cls = "%s%s%s%s%s%s" % ("step0 " if k == 0 else "", "freeze " if fr else "nofreeze ", "valid " if va else "invalid ",
+        cls = "%s%s%s%s%s%s" % ("step0 " if local == 0 else "", "freeze " if fr else "nofreeze ", "valid " if va else "invalid ",
                                "skipP " if skipP else "", "skipC " if skipC else "", "resample" if trig else "keep")
         hist[cls] = hist.get(cls, 0) + 1
+        if epoch > 0:
+            stats["steps_in_later_epochs"] = stats.get("steps_in_later_epochs", 0) + 1
+        norm_expected = bool(fr or trig or prev_norm)
+        if not norm_expected:
+            stats["steps_with_unnormalised_weights_handed_on"] = stats.get("steps_with_unnormalised_weights_handed_on", 0) + 1
         # ------------------------------------------------ the property's predicates on the implementation
         if not (b["cn"] == n and b["ccols"] == n and b["wrows"] == n and b["mcols"] == n):
             probs.append(("prop", "particle-count", "%s: corrected set has components=%d, state columns=%d, mean columns=%d, weights=%d" % (where, b["cn"], b["ccols"], b["mcols"], b["wrows"])))
@@ -250,8 +300,9 @@ def check_history(case, meta, h, d, stats, hist):
             probs.append(("prop", "weight-not-finite", "%s: a log-weight is not finite (likelihood style %s): %s" % (where, style, b["w"][:6])))
             break
         l = lse(b["w"])
-        stats["max_abs_lse"] = max(stats.get("max_abs_lse", 0.0), abs(l))
-        if not abs(l) <= 1e-10:
+        if norm_expected:
+            stats["max_abs_lse"] = max(stats.get("max_abs_lse", 0.0), abs(l))
+        if norm_expected and not abs(l) <= 1e-10:
             probs.append(("prop", "not-normalised", "%s: log-sum-exp of the corrected log-weights is %.3g" % (where, l)))
             break
         cw = b["cw"]
@@ -294,12 +345,12 @@ def check_history(case, meta, h, d, stats, hist):
                 break
             pre_x = b["x"]
         # the predicted set as the (harness-defined) prediction produces it from the previous corrected set
-        if k == 0:
+        if local == 0:
             exp_pw, exp_ps = list(w0), list(x0)
         elif skipP:
             exp_pw, exp_ps = prev_w, prev_x
         else:
-            exp_pw, exp_ps = prev_w, [x + 1.0 for x in prev_x]
+            exp_pw, exp_ps = prev_w, [x + shift for x in prev_x]
         pw, ps = b["pw"], b["ps"]
         if not fr:
             if not (bits_equal(cw, pw) and bits_equal(pre_x, ps)):
@@ -361,7 +412,20 @@ def check_history(case, meta, h, d, stats, hist):
                     stats["prior_steps_particles_differ_from_model"] = stats.get("prior_steps_particles_differ_from_model", 0) + 1
             else:
                 stats["steps_identical_to_model"] = stats.get("steps_identical_to_model", 0) + 1
+        # log(): called once, between the normalisation and the resampling decision (it sees the corrected weights)
+        # (observations only: the property does not speak about log() or step_number())
+        lk = "log_calls_as_model" if (b["log_calls"] == 1 and bits_equal(b["lw"], cw)) else "log_calls_not_as_model"
+        stats[lk] = stats.get(lk, 0) + 1
+        sk = "step_numbers_as_model" if (b["stepno"] == local and (not live or mblocks[k].get("stepno") == b["stepno"])) else "step_numbers_not_as_model"
+        stats[sk] = stats.get(sk, 0) + 1
         prev_w, prev_x = b["w"], b["x"]
+        prev_norm = norm_expected
+        local += 1
+        if rst:                               # reset during this step: the recursion re-initialises before the next one
+            epoch += 1
+            local = 0
+            w0, x0 = inits[epoch % len(inits)]
+            prev_norm = abs(lse(w0)) <= 1e-10
     return probs
 
 
@@ -441,6 +505,126 @@ def likelihood_stage(ctx, binary, stats, only=None):
     return len(cases), bad, len(logs)
 
 
+def parse_pipe(tokens):
+    out, p = [], 0
+    while p < len(tokens) and tokens[p] == "P":
+        b = {}
+        (b["cn"], b["clin"], b["ccirc"], b["ccols"], b["srows"], b["wrows"], b["trig"]) = [int(x) for x in tokens[p + 1:p + 8]]
+        b["neff"] = unhex(tokens[p + 8]); b["u1ok"] = int(tokens[p + 9]); b["u1"] = tokens[p + 10]
+        npar = int(tokens[p + 11]); p += 12
+        b["parents"] = [int(x) for x in tokens[p:p + npar]]; p += npar
+        b["w"] = [unhex(x) for x in tokens[p:p + b["wrows"]]]; p += b["wrows"]
+        b["x"] = [unhex(x) for x in tokens[p:p + b["ccols"]]]; p += b["ccols"]
+        for key in ("cw", "lw", "pw"):
+            k = int(tokens[p]); p += 1
+            b[key] = [unhex(x) for x in tokens[p:p + k]]; p += k
+        k = int(tokens[p]); p += 1
+        b["px"] = [unhex(x) for x in tokens[p:p + k]]; p += k
+        b["py"] = [unhex(x) for x in tokens[p:p + k]]; p += k
+        b["vm"] = int(tokens[p]); b["y"] = (unhex(tokens[p + 1]), unhex(tokens[p + 2])); p += 3
+        b["vl"], b["lik_same"] = int(tokens[p]), int(tokens[p + 1]); k = int(tokens[p + 2]); p += 3
+        b["lik"] = [unhex(x) for x in tokens[p:p + k]]; p += k
+        b["copies"], b["log_calls"] = int(tokens[p]), int(tokens[p + 1]); p += 2
+        out.append(b)
+    return out
+
+
+def pipeline_stage(ctx, binary, stats, only=None):
+    """the shipped pipeline of test_SIS end to end (InitSurveillanceAreaGrid, DrawParticles + WhiteNoiseAcceleration,
+    BootstrapCorrection + SimulatedLinearSensor + GaussianLikelihood, Resampling) against the predicates and the model:
+    the prediction outcome and the reported likelihood of every step are handed to `sisStep` as event data"""
+    r = ctx.gen("pipe").r
+    cases = []
+    if only:
+        t = only.split()
+        cases.append(tuple(int(x) for x in t[1:7]) + tuple(unhex(x) for x in t[7:10]))
+    for _ in range(0 if only else ctx.n(14, 150)):
+        nx, ny = r.randint(2, 6), r.randint(2, 6)
+        cases.append((r.randrange(1, 2 ** 32), r.randrange(1, 2 ** 32), r.randrange(1, 2 ** 32), r.randint(2, 8), nx, ny,
+                      r.choice([1000.0, 100.0, 50.0]), r.choice([10.0, 30.0, 100.0]), r.choice([10.0, 1.0, 0.1])))
+    uouts, _ = vlib.run_harness(binary, ["u1 %d %d %d" % (c[0], c[4] * c[5], c[3]) for c in cases])
+    hl = ["pipe %d %d %d %d %d %d %s %s %s" % (c[0], c[1], c[2], c[3], c[4], c[5], hexd(c[6]), hexd(c[7]), hexd(c[8])) for c in cases]
+    hout, logs = vlib.run_harness(binary, hl)
+    parsed, dl = [], []
+    for c, line, h, uo in zip(cases, hl, hout, uouts):
+        n, K = c[4] * c[5], c[3]
+        try:
+            ht = h.split()
+            blocks = parse_pipe(ht[3:]) if ht[0] == "ok" else None
+            if blocks is None or len(blocks) != K or int(ht[2]) != K:
+                raise ValueError("blocks")
+        except (IndexError, ValueError):
+            parsed.append(None); dl.append("skip"); continue
+        parsed.append(blocks)
+        us = uo.split()[1:]
+        body = "sisp %d 4 0 %d %d %s %s %s" % (n, K, len(us), " ".join(us), " ".join(hexd(x) for x in blocks[0]["pw"]), " ".join(hexd(x) for x in blocks[0]["px"]))
+        for b in blocks:
+            body += " 1 %d %s %d %s" % (b["vl"], " ".join(hexd(x) for x in b["px"]), len(b["lik"]), " ".join(hexd(x) for x in b["lik"]))
+        dl.append(body)
+    dout = vlib.run_driver(dl)
+    bad = []
+    for c, line, h, blocks, d in zip(cases, hl, hout, parsed, dout):
+        n, K, sigma = c[4] * c[5], c[3], c[7]
+        if blocks is None:
+            bad.append(("prop", "impl-crash", "the shipped SIS pipeline failed or did not run its %d steps: %s" % (K, h[:120]), line, h)); continue
+        mblocks = parse_blocks(d.split()[1:], False)[0] if d.startswith("ok") else None
+        if mblocks is None or len(mblocks) != K:
+            bad.append(("corr", "model-undefined", "model not defined on the pipeline history: %s" % d[:60], line, h)); mblocks = None
+        thr, live = n / 3.0, mblocks is not None
+        if abs(lse(blocks[0]["pw"])) > 1e-10:
+            bad.append(("corr", "shipped-init-not-normalised", "InitSurveillanceAreaGrid: initial weights are not normalised (hypothesis InitOK)", line, h))
+        prev_w = blocks[0]["pw"]
+        for k, b in enumerate(blocks):
+            where = "pipeline step %d of %d (N=%d)" % (k, K, n)
+            fail = None
+            trig = bool(b["trig"])
+            if not (b["cn"] == n and b["ccols"] == n and b["wrows"] == n): fail = ("particle-count", "corrected set has components=%d, columns=%d, weights=%d" % (b["cn"], b["ccols"], b["wrows"]))
+            elif not (b["clin"] == 4 and b["ccirc"] == 0 and b["srows"] == 4): fail = ("layout-lost", "layout (%d, %d), %d rows" % (b["clin"], b["ccirc"], b["srows"]))
+            elif not all(math.isfinite(x) for x in b["w"]): fail = ("weight-not-finite", "a log-weight is not finite")
+            elif abs(lse(b["w"])) > 1e-10: fail = ("not-normalised", "log-sum-exp of the corrected log-weights is %.3g" % lse(b["w"]))
+            elif len(b["cw"]) != n or trig != (b["neff"] < thr): fail = ("resample-trigger", "neff = %.17g, N/3 = %.17g, resampling %s" % (b["neff"], thr, "ran" if trig else "did not run"))
+            elif trig and (not all(is_minus_log_n(hexd(x), n) for x in b["w"]) or not b["copies"] or not b["u1ok"]): fail = ("not-uniform-after-resampling", "after resampling: weights not all -log N / particles not copies at the parents")
+            elif not trig and not bits_equal(b["w"], b["cw"]): fail = ("neff-not-of-corrected-weights", "resampling did not run, yet neff was evaluated on other weights")
+            elif not b["lik_same"]: fail = ("likelihood-query-not-idempotent", "two getLikelihood() calls after the step disagree")
+            elif not (b["vm"] and b["vl"] and len(b["lik"]) == n): fail = ("reweight-wrong", "measurement / likelihood not valid although the acquisition succeeded")
+            else:
+                want_l = [math.exp(-((b["y"][0] - x) ** 2 + (b["y"][1] - y) ** 2) / (2 * sigma * sigma)) / (2 * math.pi * sigma * sigma) for x, y in zip(b["px"], b["py"])]
+                # below ~1e-290 the true density underflows; Eigen's vectorised exp saturates there (tiny positive values instead
+                # of 0): only "vanishing and non-negative" is required in that regime
+                if any((abs(a - w) > 1e-8 * w) if w > 1e-280 else not (0.0 <= a <= 1e-270) for a, w in zip(b["lik"], want_l)):
+                    fail = ("likelihood-value", "reported likelihood is not N(y - Hx; 0, R) of the predicted particles")
+                else:
+                    raw = [w + math.log(li + TINY) for w, li in zip(prev_w, b["lik"])]
+                    lr = lse(raw)
+                    if not all(close(a, x - lr) for a, x in zip(b["cw"], raw)) or not bits_equal(b["pw"], prev_w):
+                        fail = ("reweight-wrong", "corrected log-weights are not w_prev + log(l + tiny) - LSE for the likelihood the correction reports")
+            if fail:
+                bad.append(("prop", fail[0], "%s: %s" % (where, fail[1]), line, h)); break
+            lk = "log_calls_as_model" if (b["log_calls"] == 1 and bits_equal(b["lw"], b["cw"])) else "log_calls_not_as_model"
+            stats[lk] = stats.get(lk, 0) + 1
+            if live:
+                mb = mblocks[k]
+                if (mb["cn"], mb["clin"], mb["ccirc"], mb["ccols"], mb["wrows"]) != (b["cn"], b["clin"], b["ccirc"], b["ccols"], b["wrows"]) or not close(mb["neff"], b["neff"]):
+                    bad.append(("corr", "pipeline-model", "%s: shape / neff differ from the model" % where, line, h)); live = False
+                elif mb["trig"] != b["trig"]:
+                    if not (abs(b["neff"] - thr) <= 1e-9 * thr or abs(mb["neff"] - thr) <= 1e-9 * thr):
+                        bad.append(("corr", "pipeline-model", "%s: trigger differs from the model" % where, line, h))
+                    live = False
+                elif trig and mb["parents"] != b["parents"]:
+                    e = [Fraction(sexp(x)) for x in b["cw"]]
+                    tol = Fraction(n * EPS + 2.0 ** -40)
+                    if not (len(mb["parents"]) == n and all(within_slack(n, frac_of_hex(b["u1"]), cum_sums(e), j, mb["parents"][j], b["parents"][j], b["parents"][j], tol) for j in range(n))):
+                        bad.append(("corr", "pipeline-model", "%s: parents differ from the model beyond rounding" % where, line, h))
+                    live = False
+                elif not all(close(a, x) for a, x in zip(mb["w"], b["w"])) or not bits_equal(mb["x"], b["x"]):
+                    bad.append(("corr", "pipeline-model", "%s: weights / particles differ from the model" % where, line, h)); live = False
+                else:
+                    stats["pipeline_steps_identical_to_model"] = stats.get("pipeline_steps_identical_to_model", 0) + 1
+            stats["pipeline_steps_resampled" if trig else "pipeline_steps_kept"] = stats.get("pipeline_steps_resampled" if trig else "pipeline_steps_kept", 0) + 1
+            prev_w = b["w"]
+    return len(cases), bad, len(logs)
+
+
 def run(ctx):
     ctx.proof_stage()
     if not ctx.quick():
@@ -459,15 +643,16 @@ def run(ctx):
         import json
         replay_line = json.load(open(ctx.replay)).get("replay", {}).get("input_line")
     glik_replay = replay_line if (replay_line and replay_line.startswith("glik")) else None
+    pipe_replay = replay_line if (replay_line and replay_line.startswith("pipe")) else None
     if replay_line:
-        if not glik_replay:
+        if not glik_replay and not pipe_replay:
             cases.append(parse_line(replay_line))
         n_hist = 0
     elif corpus.exists():
         for ln in corpus.read_text().split("\n"):
             if ln.strip() and not ln.startswith("#"):
                 cases.append(parse_line(ln.strip()))
-    for forced in [] if replay_line else ["n3-onehot"] * 4 + ["n3-init-onehot"] * 2 + ["n6-twohot"] * 2 + ["init-peaked"] * 4 + ["circ-resample"] * ctx.n(12, 100) + ["circ-resample-prior"] * ctx.n(8, 60):
+    for forced in [] if replay_line else ["n3-onehot"] * 4 + ["n3-init-onehot"] * 2 + ["n6-twohot"] * 2 + ["init-peaked"] * 4 + ["unnorm-init"] * ctx.n(8, 60) + ["circ-resample"] * ctx.n(12, 100) + ["circ-resample-prior"] * ctx.n(8, 60):
         cases.append(gen_history(r, ctx.tier, forced))
     cases += [gen_history(r, ctx.tier) for _ in range(n_hist)]
     # the draws of the resampler's generator (twin generator, same seed, same distribution)
@@ -498,7 +683,8 @@ def run(ctx):
         for kind, key2, what in probs:
             (corr_bad if kind == "corr" else prop_bad).append((key2, what, hl, h))
     n_lik, lik_bad, lik_crashes = (0, [], 0) if (replay_line and not glik_replay) else likelihood_stage(ctx, binary, stats, glik_replay)
-    for kind, key2, what, line, h in lik_bad:
+    n_pipe, pipe_bad, pipe_crashes = (0, [], 0) if (replay_line and not pipe_replay) else pipeline_stage(ctx, binary, stats, pipe_replay)
+    for kind, key2, what, line, h in lik_bad + pipe_bad:
         (corr_bad if kind == "corr" else prop_bad).append((key2, what, line, h))
     prop_bad.sort(key=lambda v: len(v[2]))          # report the smallest failing input of each kind
     corr_bad.sort(key=lambda v: len(v[2]))
@@ -515,18 +701,18 @@ def run(ctx):
     nontrivial = set(hl for (c, m), hl in zip(cases, hlines) if m["n"] > 1 and m["K"] > 1)
     resampled_circ = sum(v for k, v in hist.items() if k.endswith("resample"))
     ctx.coverage.update({
-        "evaluations": len(cases) + n_lik, "distinct_nontrivial": len(nontrivial & distinct),
+        "evaluations": len(cases) + n_lik + n_pipe, "shipped_pipeline_histories": n_pipe, "distinct_nontrivial": len(nontrivial & distinct),
         "gaussian_likelihood_cases": n_lik, "gaussian_likelihood_fail_subsets_exhaustive": True,
-        "rule": "scripted histories of the real SIS filter thread: 1..%d steps, N in 1..50, layouts lin 0..3 / circ 0..2, per step a skip command "
+        "rule": "scripted histories of the real SIS filter thread (several skip commands per step incl. sequences netting to nothing, reset -> re-initialisation epochs with a time-varying initialiser, time-varying prediction shift, un-normalised initial weights with failing acquisition): 1..%d steps, N in 1..50, layouts lin 0..3 / circ 0..2, per step a skip command "
                 "(prediction/correction/all on/off), acquisition success/failure, valid/invalid likelihood, likelihood vectors (ones, random, peaked, exact zeros, "
                 "all zero, 1e-300, one-hot, two-hot, 1e300); forced boundary histories (N=3 one-hot: neff == N/3 exactly; resampling with circular components); "
                 "non-trivial = N > 1 and more than one step; distinct = distinct input lines" % (30 if ctx.quick() else 60),
-        "samples": ([hlines[0][:400], hlines[len(hlines) // 2][:400]] if hlines else [str(glik_replay)[:400]]),
+        "samples": ([hlines[0][:400], hlines[len(hlines) // 2][:400]] if hlines else [str(glik_replay or pipe_replay)[:400]]),
         "steps_executed": steps_total, "step_class_histogram": hist, "history_mode_histogram": modes,
         "branch_and_numeric_counters": stats, "steps_with_resampling": resampled_circ,
         "traces_validated_against_impl": len(cases),
         "model_vs_impl_disagreements": len(corr_bad), "property_failures_on_impl": len(prop_bad),
-        "sanitizer_crashes": len(logs) + lik_crashes,
+        "sanitizer_crashes": len(logs) + lik_crashes + pipe_crashes,
     })
     ctx.assumptions += [
         "likelihoods non-negative (hypothesis EvOK.likNonneg): checked on the shipped GaussianLikelihood (gaussian_likelihood_contract; density non-negative is C15's)",
